@@ -158,6 +158,7 @@ class Tracker:
     self.ambig_entries = 0
     self.step = 0
     self.worst = 0.0
+    self.extra_abs = 0.0      # absolute slack for quantities obtained by a cancelling subtraction (OCO: alpha - delta)
 
   def advance(self, gmat, V, l, t, ridge_prev, zero_grad):
     """gmat: d x m unfolded gradient; V,l,t: implementation's new sketch state (real rows only)."""
@@ -169,7 +170,7 @@ class Tracker:
     s_old = (self.V * lold_r) @ self.V.T
     self.C = b * (self.C + ridge_prev * (self.V @ self.V.T)) + gmat @ gmat.T
     cn = max(float(np.linalg.norm(self.C, 2)), 1e-300)
-    tau = 50 * d * self.unit * cn
+    tau = 50 * d * self.unit * cn + self.extra_abs
     # structure
     gram = V.T @ V
     offd = gram - np.diag(np.diag(gram))
@@ -415,6 +416,7 @@ def run_oco(case):
   state = init()
   tr = Tracker(n, ell, 1.0, 2, 2.0 ** -53, "oco-s-adagrad")
   tr.k = ell - 1          # the last sketch row is always deflated to zero
+  tr.extra_abs = 16 * 2.0 ** -53 * max(case["delta"], 0.0)   # t = alpha - delta cancels when delta >> escaped mass
   tau = 0.0
   for g in history(case):
     g = g.reshape(n)
